@@ -169,3 +169,43 @@ func VerifC16BatchV1() {
 	}
 	nd.Reach("end")
 }
+
+// VerifC16ProjectionNamesV1: the SDK v1 twin of VerifC16ProjectionNames.
+func VerifC16ProjectionNamesV1() {
+	c := vClient(false)
+	_, perr := c.PutItem(&dynamodb.PutItemInput{TableName: aws.String(vTbl), Item: vItem{"p": vS("k"), "a": vS("x")}})
+	nd.Assert(perr == nil, "setup-put")
+	names := map[string]*string{"#a": aws.String("a")}
+	extra := nd.Choice("unused-name", 2) == 1
+	if extra {
+		names["#zz"] = aws.String("a")
+	}
+	proj := aws.String("#a")
+	var err error
+	var panicked bool
+	switch nd.Choice("call", 3) {
+	case 0:
+		err, panicked = vCatch(func() error {
+			_, e := c.GetItem(&dynamodb.GetItemInput{TableName: aws.String(vTbl), Key: vItem{"p": vS("k")}, ProjectionExpression: proj, ExpressionAttributeNames: names})
+			return e
+		})
+	case 1:
+		err, panicked = vCatch(func() error {
+			_, e := c.Query(&dynamodb.QueryInput{TableName: aws.String(vTbl), KeyConditionExpression: aws.String("p = :p"), ExpressionAttributeValues: vItem{":p": vS("k")}, ProjectionExpression: proj, ExpressionAttributeNames: names})
+			return e
+		})
+	case 2:
+		err, panicked = vCatch(func() error {
+			_, e := c.Scan(&dynamodb.ScanInput{TableName: aws.String(vTbl), ProjectionExpression: proj, ExpressionAttributeNames: names})
+			return e
+		})
+	}
+	if extra {
+		nd.Reach("unused")
+		nd.Assert(err != nil || panicked, "C16v1-unused-name-next-to-a-projection-rejected")
+	} else {
+		nd.Reach("projection-only")
+		nd.Assert(err == nil && !panicked, "C16v1-name-used-only-by-the-projection-accepted")
+	}
+	nd.Reach("end")
+}
